@@ -29,6 +29,8 @@ func classSpelling(c string, i int) string {
 		return "{% assign z = 1 %}"
 	case "obj":
 		return "{{ c }}"
+	case "otherend": // end tags of blocks that other Liquid dialects have
+		return "{% end" + []string{"doc", "style", "schema", "javascript", "form", "paginate", "stylesheet", "section"}[i%8] + " %}"
 	case "badobj": // no valid expression: meaningful only as the content of a comment or raw block
 		return "{{ p * 2 }}"
 	case "text":
